@@ -189,8 +189,8 @@ func streamErrorf(rep *Report, tier string, seed uint64) {
 						}
 						d += "w"
 						nw++
-						if strings.Contains(d, "#") {
-							sharpW = true
+						if strings.Contains(d, "#") || strings.Contains(d, "+") {
+							sharpW = true // '#' or '+' on %w: only the verb v turns them into Go-syntax / field-name mode in the fork
 						}
 					} else {
 						d += []string{"v", "s", "d", "+v", "q"}[r.Intn(5)]
@@ -249,10 +249,14 @@ func streamErrorf(rep *Report, tier string, seed uint64) {
 							orc = append(orc, fmt.Sprintf("%sC15:%%w does not render like %%v: %q vs %q", site, s, s2))
 						}
 					}
-					if nw <= 1 && !hookOn && !hasRedactSpecific(args) && !sharpW && !excludedDirective(strings.ReplaceAll(f, "w", "v")) {
+					if nw <= 1 && !hookOn && !hasRedactSpecific(args) && !excludedDirective(strings.ReplaceAll(f, "w", "v")) {
 						fe := fmt.Errorf(f, args...)
 						if got := s.StripMarkers(); got != string(escQ([]byte(fe.Error()))) {
-							orc = append(orc, fmt.Sprintf("C15:text %q differs from fmt.Errorf's message %q", got, fe.Error()))
+							site := ""
+							if sharpW {
+								site = "D5:sharp-w@@"
+							}
+							orc = append(orc, fmt.Sprintf("%sC15:text %q differs from fmt.Errorf's message %q", site, got, fe.Error()))
 						}
 						if u := errors.Unwrap(fe); u != err {
 							orc = append(orc, fmt.Sprintf("C15:returned error %v differs from fmt.Errorf's Unwrap %v", err, u))
